@@ -38,10 +38,11 @@ var statusTokens = map[string][]string{
 	"101":      {"101"},
 	"other3":   {"200", "404", "100", "301", "102"},
 	"short":    {"10", "1", "01"},
-	"long":     {"1010", "1011", "10100"},
+	"long":     {"1010", "1011", "10100", "0101", "00101", "101.0"},
 	"nondigit": {"1O1", "9;", "0:1", "10A", "10;", "?1", "1 01", "101x", "-101", "+101", "8=?"},
-	"wrap":     {"18446744073709551717", "36893488147419103333"},
-	"empty":    {""},
+	// (numbers that are 101 modulo 2^8, 2^16, 2^32 and 2^64)
+	"wrap":  {"18446744073709551717", "36893488147419103333", "357", "65637", "131173", "4294967397", "8589934693"},
+	"empty": {""},
 }
 
 // peerConn plays the server: it reads the request, then serves the scripted
@@ -92,7 +93,7 @@ func (r *cresp) render(rng *rand.Rand, key string, reqProtos []string, reqExts [
 		}
 	}
 	toks := statusTokens[r.Status]
-	r.statusTok = toks[rng.Intn(len(toks))]
+	r.statusTok = toks[r.VerForm%len(toks)] // (every token of the class is used: the cases enumerate VerForm)
 	line := proto + " " + r.statusTok + " Switching Protocols"
 	var lines []string
 	add := func(name, class, okv, variedv, wrongv string) {
@@ -335,8 +336,8 @@ func c10(c *ctx) {
 	base := cresp{Proto: "1.1", Status: "101", Upgrade: "ok", Connection: "ok", Accept: "ok", Protocol: "none", Exts: "none"}
 	for _, p := range []string{"1.1", "1.2", "1.0", "2.0", "garbage"} {
 		for st := range statusTokens {
-			reps := 6
-			if p == "garbage" {
+			reps := len(statusTokens[st])
+			if p == "garbage" && reps < len(garbageVersions)+1 {
 				reps = len(garbageVersions) + 1
 			}
 			for rep := 0; rep < reps; rep++ {
